@@ -99,8 +99,14 @@ fn main() {
         "C09" => go(props::c09::C09, &a),
         "C10" => go(props::c10::C10, &a),
         "C11" => go(props::c11::C11, &a),
+        "C12" => go(props::c12::C12, &a),
+        "C13" => go(props::c13::C13, &a),
+        "C14" => go(props::c14::C14, &a),
+        "C15" => go(props::c15::C15, &a),
         "C16" => go(props::c16::C16, &a),
         "C17" => go(props::c17::C17, &a),
+        "C18" => go(props::c18::C18, &a),
+        "C19" => go(props::c19::C19, &a),
         _ => {
             eprintln!("unknown property {}", a.id);
             2
